@@ -344,6 +344,12 @@ def run(chk, prog):
         if k not in used:
             chk.note('C15 table entry matches no site (stale): ' + k)
 
+    # ---- optionals the document decides (shared with C04)
+    from rules.docopt import check_document_decided_options
+    check_document_decided_options(chk, prog, 'C15.document-decided-options-not-unwrapped',
+                                   ' Story::new runs the global declarations through the interpreter and load_state '
+                                   'is followed by ordinary play, so these sites are reachable from a document.')
+
     # ---- what the decoders call on the state they are filling
     R5 = 'C15.decoders-call-no-panicking-accessor'
     chk.rule(R5, 'A decoder that calls a function of the engine which is not itself a decoder hands it state that comes '
